@@ -162,8 +162,14 @@ def feasible_unbound_path(fi, name, use_nid):
             keys[n.id] = k
             count[k[0]] = count.get(k[0], 0) + 1
     relevant = {t for t, c in count.items() if c >= 2}
+    _defs_cache = {}
 
     def node_defs(nid):
+        if nid not in _defs_cache:
+            _defs_cache[nid] = _node_defs(nid)
+        return _defs_cache[nid]
+
+    def _node_defs(nid):
         node = cfg.nodes[nid]
         d = set()
         if node.kind == "branch":
@@ -181,6 +187,18 @@ def feasible_unbound_path(fi, name, use_nid):
                         d.add(ast.unparse(x))
         return d
 
+    # only tests that guard a binding of `name` or the use itself can make an unbound path infeasible: remembering the
+    # outcome of every repeated test is exponential in long (inlined) constructors
+    guard_tests = set()
+    for n in cfg.nodes.values():
+        if n.id == use_nid or (n.kind != "branch" and name in node_defs(n.id)) or (n.kind == "branch" and n.label == "iter" and name in node_defs(n.id)):
+            for test, label in cfg.guards(n.id):
+                if isinstance(test, ast.expr):
+                    t_ = test
+                    while isinstance(t_, ast.UnaryOp) and isinstance(t_.op, ast.Not):
+                        t_ = t_.operand
+                    guard_tests.add(ast.unparse(t_))
+    relevant &= guard_tests
     start = (cfg.entry, frozenset())
     seen = {start}
     stack = [start]
